@@ -191,7 +191,7 @@ func leaked(d time.Duration) string {
 
 func runCase(c Case) *ev.Failure {
 	if pre := leaked(2 * time.Second); pre != "" {
-		return ev.Failf("harness-leak-before", "a library goroutine from an earlier case is still alive:\n%s", pre)
+		return ev.Failf("goroutine-leak-after-earlier-case", "a goroutine the library started for a connection of an EARLIER case is still alive (that connection had terminated):\n%s", pre)
 	}
 	h := &harness{entered: make(chan struct{}), fired: make(chan bool, 1)}
 	h.cond = sync.NewCond(&h.mu)
